@@ -138,7 +138,8 @@ def build_lib(flavor="asan"):
             os.replace(lib + ".tmp", lib)
             # prune old archives / objects of this flavor
             for old in glob.glob(os.path.join(CACHE, "lib", f"libgeo-{flavor}-*.a")):
-                if old != lib:
+                # keep recent ones: a concurrent check of another tree (GV_REPO) may be about to link against its archive
+                if old != lib and time.time() - os.path.getmtime(old) > 3600:
                     os.remove(old)
             keep = set(objs)
             for old in glob.glob(os.path.join(objdir, "*.o")):
